@@ -616,6 +616,272 @@ def correspondence(ctx):
     ctx.extra["coq_cases"] = len(col.cases)
 
 
+# ---------------------------------------------------------------------------------------------------------------
+# exponent / return-shape bookkeeping (coq/C01/Exponent.v, coq/C01/PropsExp.v)
+# ---------------------------------------------------------------------------------------------------------------
+EXP_HEADER = (
+    "From Coq Require Import ZArith Arith List Bool.\n"
+    "From QV Require Import C01.Exponent.\n"
+    "Import ListNotations.\n"
+    "Definition kind_eqb (a b : kind) : bool := match a, b with KScalar, KScalar | KTensor, KTensor | KPairScalar, "
+    "KPairScalar | KPairTensor, KPairTensor | KNet, KNet => true | _, _ => false end.\n"
+    "Definition shape_eqb (a b : bool * bool * kind * bool) : bool := "
+    "let '(a1, a2, a3, a4) := a in let '(b1, b2, b3, b4) := b in "
+    "Bool.eqb a1 b1 && Bool.eqb a2 b2 && kind_eqb a3 b3 && Bool.eqb a4 b4.\n"
+)
+
+
+def _b(x):
+    return "true" if x else "false"
+
+
+def _kind_of(res):
+    import quimb.tensor as qtn
+
+    if isinstance(res, tuple):
+        return "KPairTensor" if isinstance(res[0], qtn.Tensor) else "KPairScalar"
+    if isinstance(res, qtn.TensorNetwork):
+        return "KNet"
+    if isinstance(res, qtn.Tensor):
+        return "KTensor"
+    return "KScalar"
+
+
+def _dense_of(res, outs):
+    """float value (flat, over `outs`) denoted by a returned scalar / Tensor / pair / network"""
+    import quimb.tensor as qtn
+
+    ex = 0.0
+    if isinstance(res, tuple):
+        res, ex = res
+    if isinstance(res, qtn.TensorNetwork):
+        ex = ex + float(res.exponent)
+        res = res.contract(all, output_inds=outs, optimize="greedy") / 10.0 ** float(res.exponent)
+    if isinstance(res, qtn.Tensor):
+        arr = np.asarray(res.transpose(*outs).data) if outs else np.asarray(res.data)
+    else:
+        arr = np.asarray(res)
+    return arr.reshape(-1) * 10.0 ** float(ex)
+
+
+def exponent_shapes(ctx):
+    """The model's shape tables (tensor_contract_shape, contract_tags_shape, contract_dispatch,
+    maybe_unwrap_shape: proved in PropsExp.v to be the shapes of flows that denote den(network)) against the
+    implementation over the WHOLE option cube: which strip_exponent / preserve_tensor the entry point hands to
+    tensor_contract (observed by rebinding the module global), what kind of object comes back, whether the
+    network's stored exponent moved.  Exact comparison inside Coq.  In the same pass the returned object is
+    compared numerically (rtol 1e-9: stripped mantissas are not exact) with 10**exponent * einsum - a test."""
+    import quimb.tensor as qtn
+    import quimb.tensor.tensor_core as tc
+
+    rng = np.random.default_rng(ctx.seed + 101)
+    cases, info = [], {}
+
+    def add(expr, d):
+        cid = len(cases)
+        cases.append((cid, expr))
+        info[cid] = d
+
+    def mk(outs_empty, rest_empty, e0):
+        """tagged part 'A' (two tensors sharing a bond; open leg 'x' unless outs_empty), rest 'B'"""
+        a1 = qtn.Tensor(rng.integers(2, 5, size=(2, 3)).astype(float), ("k", "m"), tags=["A", "A1"])
+        if outs_empty:
+            a2 = qtn.Tensor(rng.integers(2, 5, size=(2, 3)).astype(float), ("k", "m"), tags=["A", "A2"])
+        else:
+            a2 = qtn.Tensor(rng.integers(2, 5, size=(2, 3, 2)).astype(float), ("k", "m", "x"), tags=["A", "A2"])
+        ts = [a1, a2]
+        if not rest_empty:
+            if outs_empty:
+                ts.append(qtn.Tensor(rng.integers(2, 5, size=(2,)).astype(float), ("y",), tags=["B"]))
+            else:
+                ts.append(qtn.Tensor(rng.integers(2, 5, size=(2, 2)).astype(float), ("x", "y"), tags=["B"]))
+        tn = qtn.TensorNetwork(ts)
+        tn.exponent = e0
+        return tn
+
+    def reference(tn, outs):
+        return _dense_of(tn.copy(), outs)
+
+    # ---- contract_tags over the full cube -------------------------------------------------------------------
+    real_tc = tc.tensor_contract
+    for strip, eq, inplace, preserve, oe, rest_empty, exp_zero in itertools.product(
+            (False, True), ("auto", True, False), (False, True), (False, True), (False, True), (False, True), (False, True)):
+        e0 = 0.0 if exp_zero else float(rng.choice([-2.0, -1.0, 1.0, 2.0, 3.0]))
+        tn = mk(oe, rest_empty, e0)
+        outs = tuple(ix for ix in ("x", "y") if ix in tn.ind_map and len(tn.ind_map[ix]) == 1)
+        ref = reference(tn, outs)
+        seen = {}
+
+        def traced(*a, **kw):
+            seen["strip"] = bool(kw.get("strip_exponent", False))
+            seen["preserve"] = bool(kw.get("preserve_tensor", False))
+            return real_tc(*a, **kw)
+
+        desc = {"fn": "contract_tags", "strip_exponent": strip, "equalize_norms": eq, "inplace": inplace,
+                "preserve_tensor": preserve, "scalar_output": oe, "tags_cover_all": rest_empty, "exponent": e0}
+        tc.tensor_contract = traced
+        try:
+            res = tn.contract_tags("A", strip_exponent=strip, equalize_norms=eq, inplace=inplace,
+                                   preserve_tensor=preserve, optimize="greedy")
+        except Exception as e:
+            ctx.violation("exponent_flow:contract_tags:raised", f"contract_tags({desc}) raised {type(e).__name__}: {e}", desc)
+            continue
+        finally:
+            tc.tensor_contract = real_tc
+        kind = _kind_of(res)
+        changed = kind == "KNet" and float(res.exponent) != e0
+        eqc = {"auto": "EqAuto", True: "EqTrue", False: "EqFalse"}[eq]
+        add(f"shape_eqb (contract_tags_shape {_b(strip)} {eqc} {_b(inplace)} {_b(preserve)} {_b(oe)} {_b(rest_empty)} "
+            f"{_b(exp_zero)}) ({_b(seen.get('strip'))}, {_b(seen.get('preserve'))}, {kind}, {_b(changed)})",
+            {**desc, "observed": [seen.get("strip"), seen.get("preserve"), kind, changed]})
+        ctx.count(("ct", strip, eq, inplace, preserve, oe, rest_empty, exp_zero), True)
+        ctx.bump("exponent_flow:contract_tags")
+        got = _dense_of(res, outs)
+        if got.shape != ref.shape or not np.allclose(got, ref, rtol=1e-9, atol=1e-9):
+            ctx.violation("exponent_flow:contract_tags:value",
+                          f"contract_tags({desc}) returns an object denoting {got[:4]} instead of {ref[:4]}", desc)
+
+    # ---- tensor_contract --------------------------------------------------------------------------------------
+    for strip, has_exp, oe, preserve in itertools.product((False, True), repeat=4):
+        tn = mk(oe, True, 0.0)
+        outs = () if oe else ("x",)
+        bex = float(rng.choice([-2.0, -1.0, 1.0, 2.0]))
+        ref = reference(tn, outs) * (10.0 ** bex if has_exp else 1.0)
+        desc = {"fn": "tensor_contract", "strip_exponent": strip, "exponent": bex if has_exp else None,
+                "scalar_output": oe, "preserve_tensor": preserve}
+        try:
+            res = qtn.tensor_contract(*tn.tensors, strip_exponent=strip, exponent=bex if has_exp else None,
+                                      preserve_tensor=preserve, optimize="greedy")
+        except Exception as e:
+            ctx.violation("exponent_flow:tensor_contract:raised", f"tensor_contract({desc}) raised {type(e).__name__}: {e}", desc)
+            continue
+        add(f"kind_eqb (tensor_contract_shape {_b(strip)} {_b(oe)} {_b(preserve)}) {_kind_of(res)}", desc)
+        ctx.count(("tc", strip, has_exp, oe, preserve), True)
+        ctx.bump("exponent_flow:tensor_contract")
+        got = _dense_of(res, outs)
+        if got.shape != ref.shape or not np.allclose(got, ref, rtol=1e-9, atol=1e-9):
+            ctx.violation("exponent_flow:tensor_contract:value",
+                          f"tensor_contract({desc}) returns an object denoting {got[:4]} instead of {ref[:4]}", desc)
+
+    # ---- TensorNetwork.contract dispatch ----------------------------------------------------------------------
+    for all_tags, inplace, strip, exp_zero in itertools.product((False, True), repeat=4):
+        e0 = 0.0 if exp_zero else float(rng.choice([-2.0, -1.0, 1.0, 2.0]))
+        tn = mk(False, False, e0)
+        outs = ("y",) if all_tags else ("y",)
+        ref = reference(tn, outs)
+        called = {"ct": False}
+        real_ct = qtn.TensorNetwork.contract_tags
+
+        def traced_ct(self, *a, **kw):
+            called["ct"] = True
+            return real_ct(self, *a, **kw)
+
+        desc = {"fn": "contract", "tags": "all" if all_tags else "A", "inplace": inplace, "strip_exponent": strip, "exponent": e0}
+        qtn.TensorNetwork.contract_tags = traced_ct
+        try:
+            res = tn.contract(all if all_tags else "A", inplace=inplace, strip_exponent=strip, optimize="greedy")
+        except Exception as e:
+            ctx.violation("exponent_flow:contract:raised", f"contract({desc}) raised {type(e).__name__}: {e}", desc)
+            continue
+        finally:
+            qtn.TensorNetwork.contract_tags = real_ct
+        add(f"Bool.eqb (contract_dispatch {_b(all_tags)} {_b(inplace)}) {_b(not called['ct'])}", desc)
+        ctx.count(("dispatch", all_tags, inplace, strip, exp_zero), True)
+        ctx.bump("exponent_flow:contract")
+        got = _dense_of(res, outs)
+        if got.shape != ref.shape or not np.allclose(got, ref, rtol=1e-9, atol=1e-9):
+            ctx.violation("exponent_flow:contract:value",
+                          f"contract({desc}) returns an object denoting {got[:4]} instead of {ref[:4]}", desc)
+
+    # ---- maybe_unwrap -----------------------------------------------------------------------------------------
+    for (is_net, n_one, preserve_tn, preserve, strip, oe, eqz), e0 in itertools.product(
+            itertools.product((False, True), repeat=7), (-2.0, 0.0, 3.0)):
+        if not is_net and (not n_one or preserve_tn or eqz or e0 != 0.0):
+            continue
+        if oe:
+            ts = [qtn.Tensor(np.asarray(float(rng.integers(2, 6))), (), tags=["A"])]
+        else:
+            ts = [qtn.Tensor(rng.integers(2, 5, size=(2, 3)).astype(float), ("x", "y"), tags=["A"])]
+        if not n_one:
+            ts.append(qtn.Tensor(rng.integers(2, 5, size=(2,)).astype(float), ("z",), tags=["B"]))
+        outs = tuple(ix for t in ts for ix in t.inds)
+        if is_net:
+            obj = qtn.TensorNetwork(ts)
+            obj.exponent = e0
+            ref = reference(obj, outs)
+        else:
+            obj = ts[0].copy()
+            ref = np.asarray(obj.data, dtype=float).reshape(-1)
+        desc = {"fn": "maybe_unwrap", "network": is_net, "one_tensor": n_one, "preserve_tensor_network": preserve_tn,
+                "preserve_tensor": preserve, "strip_exponent": strip, "scalar": oe, "equalize_norms": eqz, "exponent": e0}
+        try:
+            res = tc.maybe_unwrap(obj, preserve_tensor_network=preserve_tn, preserve_tensor=preserve,
+                                  strip_exponent=strip, equalize_norms=eqz, output_inds=outs[::-1] if n_one and not oe else None)
+        except Exception as e:
+            ctx.violation("exponent_flow:maybe_unwrap:raised", f"maybe_unwrap({desc}) raised {type(e).__name__}: {e}", desc)
+            continue
+        add(f"kind_eqb (maybe_unwrap_shape {_b(is_net)} {_b(n_one)} {_b(preserve_tn)} {_b(preserve)} {_b(strip)} {_b(oe)}) "
+            f"{_kind_of(res)}", desc)
+        ctx.count(("mu", is_net, n_one, preserve_tn, preserve, strip, oe, eqz, e0), True)
+        ctx.bump("exponent_flow:maybe_unwrap")
+        got = _dense_of(res, outs)
+        if got.shape != ref.shape or not np.allclose(got, ref, rtol=1e-9, atol=1e-9):
+            ctx.violation("exponent_flow:maybe_unwrap:value",
+                          f"maybe_unwrap({desc}) returns an object denoting {got[:4]} instead of {ref[:4]}", desc)
+
+    # ---- contract_cumulative over its option cube (numerical: rounds x maybe_unwrap) ---------------------------
+    for strip, eq, inplace, preserve, e0, closed in itertools.product(
+            (False, True), ("auto", True, False), (False, True), (False, True), (0.0, -2.0, 1.0), (False, True)):
+        exp_zero = e0 == 0.0
+        L = int(rng.integers(3, 6))
+        ts = []
+        for k in range(L):
+            inds = tuple(ix for ix in (f"b{k - 1}" if k > 0 else None, f"b{k}" if k < L - 1 else None,
+                                       None if closed else (f"p{k}" if k % 2 == 0 else None)) if ix)
+            ts.append(qtn.Tensor(rng.integers(1, 4, size=(2,) * len(inds)).astype(float), inds, tags=[f"S{k}"]))
+        tn = qtn.TensorNetwork(ts)
+        tn.exponent = e0
+        outs = tuple(ix for ix in tn.outer_inds())
+        ref = reference(tn, outs)
+        order = list(rng.permutation(L))
+        groups, i = [], 0
+        while i < L:
+            g = int(rng.integers(1, 3))
+            groups.append([f"S{k}" for k in order[i:i + g]])
+            i += g
+        desc = {"fn": "contract_cumulative", "groups": groups, "strip_exponent": strip, "equalize_norms": eq,
+                "inplace": inplace, "preserve_tensor": preserve, "exponent": e0, "closed": closed}
+        try:
+            res = tn.contract_cumulative(groups, strip_exponent=strip, equalize_norms=eq, inplace=inplace,
+                                         preserve_tensor=preserve, optimize="greedy")
+        except Exception as e:
+            ctx.violation("exponent_flow:contract_cumulative:raised",
+                          f"contract_cumulative({desc}) raised {type(e).__name__}: {e}", desc)
+            continue
+        ctx.count(("cum", strip, eq, inplace, preserve, exp_zero, closed), True)
+        ctx.bump("exponent_flow:contract_cumulative")
+        got = _dense_of(res, outs)
+        if got.shape != ref.shape or not np.allclose(got, ref, rtol=1e-9, atol=1e-9):
+            ctx.violation("exponent_flow:contract_cumulative:value",
+                          f"contract_cumulative({desc}) returns an object denoting {got[:4]} instead of {ref[:4]}", desc)
+
+    failed, errors = ctx.coq_cases("expshape", EXP_HEADER, cases, shard=200)
+    for path, err in errors:
+        ctx.broken_obligation("correspondence:" + path.split("/")[-1], err)
+    seenk = set()
+    for c in failed:
+        d = info[c]
+        key = f"exponent_flow:{d['fn']}:shape"
+        if key in seenk:
+            continue
+        seenk.add(key)
+        # the implementation's observable decisions differ from the model whose flow is proved sound: report with the
+        # concrete option combination (the value comparison above tells whether the denoted value is wrong as well)
+        ctx.violation(key, f"{d['fn']} with {d} does not have the return shape / exponent routing of the proved model "
+                           "(coq/C01/Exponent.v)", d)
+    ctx.extra["coq_cases_exponent_flow"] = len(cases)
+
+
 def run(ctx):
     ctx.extra["rule"] = RULE
     ctx.trusted_base += [
@@ -628,7 +894,9 @@ def run(ctx):
     ]
     ctx.assumptions += ["hyper labels crossing a partial-contraction cut must be given as output_inds (documented); "
                         "tag-by-tag / cumulative / inferred-output routes are exercised on networks without hyper labels"]
-    ctx.check_props(["Base/Sums.vo", "Base/TN.vo", "Base/TNExec.vo", "C01/Props.v"])
+    ctx.check_props(["Base/Sums.vo", "Base/TN.vo", "Base/TNExec.vo", "C04/Rules.vo", "C04/Proofs.vo", "C01/Exponent.vo",
+                     "C01/Props.v", "C01/PropsExp.v"])
+    ctx.stage(exponent_shapes)
     ctx.stage(correspondence)
     ctx.stage(linop_views)
     ctx.stage(tiny_values)
